@@ -67,22 +67,22 @@ theorem tie_cid_table :
         (fun (n, _, _) => Gen.Teehistorian.cidNone.contains n || ["PlayerDiff", "PlayerNew", "PlayerOld"].contains n) = true) := by
   right; decide
 
-/-- The statements of `Reader::read` that assign the tick state, in source order: the model's
-`Reader.pre`/`Reader.post` were written against exactly these (including the
-`prev_player_cid = None` of the `TickSkip` branch, the repair of defect D11). -/
+/-- What `Reader::read` does to the tick state, as the model's `Reader.pre`/`Reader.post` assume it:
+every tick update is overflow-checked and reports `TickOverflow`; `prev_player_cid` is only ever
+cleared or set to a record's client id; the `TickSkip` arm clears it (the repair of defect D11) and
+toggles `in_tick`; the implicit tick is decided by `prev >= cid`.  The translator inlines private
+helpers, classifies right-hand sides and normalises the comparison, so that behaviour-preserving
+refactorings (helper extraction, renames, `a >= b` ↔ `b <= a`, statement order) leave this tie
+intact. -/
 theorem tie_read_assignments :
-    Gen.Teehistorian.readAssigns.map (·.1) =
-      ["next_item_kind", "in_tick", "tick", "prev_player_cid", "next_item_kind", "in_tick",
-       "next_item_kind", "in_tick", "max_cid", "tick", "prev_player_cid", "in_tick", "in_tick",
-       "prev_player_cid", "prev_player_cid", "prev_player_cid"] ∧
-    Gen.Teehistorian.readAssigns.filter (·.1 == "prev_player_cid") =
-      [("prev_player_cid", "None"), ("prev_player_cid", "None"), ("prev_player_cid", "Some(i.cid)"),
-       ("prev_player_cid", "Some(i.cid)"), ("prev_player_cid", "Some(i.cid)")] ∧
-    Gen.Teehistorian.lits_read = [1, 1] ∧ Gen.Teehistorian.lits_empty = [0, 1] ∧
-    Gen.Teehistorian.lits_read_more = [0, 0, 0] ∧
-    Gen.Teehistorian.readAssigns.filter (·.1 == "tick") =
-      [("tick", "old_tick.checked_add(1).ok_or(format::Error::TickOverflow)?"),
-       ("tick", "self .tick .checked_add(1) .ok_or(format::Error::TickOverflow)? .checked_add(dt) .ok_or(format::Error::TickOverflow)?")] := by
+    Gen.Teehistorian.readEffects =
+      [("in_tick", "false"), ("in_tick", "true"), ("max_cid", "max"), ("next_item_kind", "Some"),
+       ("prev_player_cid", "None"), ("prev_player_cid", "Some"), ("tick", "checked_add:TickOverflow")] ∧
+    Gen.Teehistorian.tickSkipEffects =
+      [("in_tick", "false"), ("in_tick", "true"), ("prev_player_cid", "None"),
+       ("tick", "checked_add:TickOverflow")] ∧
+    Gen.Teehistorian.implicitTickCmp = "prev >= cid" ∧
+    Gen.Teehistorian.lits_empty = [0, 1] ∧ Gen.Teehistorian.lits_read_more = [0, 0, 0] := by
   decide
 
 /-! ### Prefix monotonicity of every item parser -/
